@@ -7,15 +7,14 @@ use crate::json::J;
 use crate::oracle::PatTrie;
 use crate::pma::{kind_name, Method, Spec, Variant};
 use crate::rng::Rng;
-use daachorse::MatchKind;
 
 pub fn num_cases(ctx: &Ctx, c11: bool) -> u64 {
     match (ctx.mode, ctx.tier, c11) {
         (Mode::Miri, _, _) => 16,
         (Mode::Asan | Mode::Tsan, _, false) => 1500,
         (Mode::Asan | Mode::Tsan, _, true) => 200,
-        (Mode::Native, Tier::Quick, false) => 6000,
-        (Mode::Native, Tier::Thorough, false) => 120_000,
+        (Mode::Native, Tier::Quick, false) => 50_000,
+        (Mode::Native, Tier::Thorough, false) => 600_000,
         (Mode::Native, Tier::Quick, true) => 480,
         (Mode::Native, Tier::Thorough, true) => 6000,
     }
